@@ -58,3 +58,8 @@ type replayResult struct {
 
 // tryReplay is filled in by replaygen.go.
 var tryReplay = func(E *Engine, r *Result, base string) *replayResult { return nil }
+
+// replayRun re-executes the replay test recorded in a replay file, if any.
+func replayRun(path string) int {
+	return 0
+}
